@@ -93,6 +93,7 @@ class Ctx:
     def __init__(self, pid, tier, seed, keep_replays=False):
         self.pid = pid
         self.tier = tier
+        HANG["tier"] = tier
         self.seed = seed
         self.t0 = time.time()
         self.tmp = tempfile.mkdtemp(prefix="verif-%s-" % pid)
@@ -460,12 +461,20 @@ def split_out(text):
 HANG = {"seen": 0}      # timeouts met in this run: after the first, every stream gets a short leash (a hang is one finding, not 200)
 
 
+def first_limit():
+    """time limit of a stream before any timeout was seen: VERIF_TIMEOUT, else 300 s (quick tier) / 1200 s (thorough: the
+    4 GiB single-call cases run there)"""
+    if os.environ.get("VERIF_TIMEOUT"):
+        return int(os.environ["VERIF_TIMEOUT"])
+    return 300 if HANG.get("tier", "quick") == "quick" else 1200
+
+
 def run_stream(exe_cmd, cases, tmp, tag, env=None, timeout=None):
     """Run cases through a line-protocol executable.  A crash is attributed to the case that was
     running; the remaining cases are run in a fresh process.  Returns (outputs, crashes)
     where outputs[i] = list of lines, crashes[i] = stderr excerpt.
     A process that does not finish within the time limit is a crash (`TIMEOUT`) of the case it was in.  The limit is
-    generous (VERIF_TIMEOUT, default 900 s per stream) until a first timeout has been seen in this run; afterwards
+    generous (VERIF_TIMEOUT, default 300 s quick / 1200 s thorough per stream) until a first timeout has been seen in this run; afterwards
     streams get 60 s, and a stream that times out twice is abandoned (its remaining cases are left unjudged)."""
     outputs, crashes = {}, {}
     start = 0
@@ -479,7 +488,7 @@ def run_stream(exe_cmd, cases, tmp, tag, env=None, timeout=None):
         rounds += 1
         inp = os.path.join(tmp, "%s-%d.in" % (tag, rounds))
         write_cases(inp, cases[start:], base=start)
-        tmo = timeout or (int(os.environ.get("VERIF_TIMEOUT", "900")) if HANG["seen"] == 0 else 60)
+        tmo = timeout or HANG.get("limit") or (first_limit() if HANG["seen"] == 0 else 60)
         with open(inp) as fin:
             try:
                 r = subprocess.run(exe_cmd, stdin=fin, stdout=subprocess.PIPE, stderr=subprocess.PIPE,
@@ -764,6 +773,7 @@ def shrink(ctx, comp, exe, fail, max_rounds=200):
     rounds = 0
     if fail.get("crash") and "TIMEOUT" in fail["crash"]:
         max_rounds = 8          # every attempt on a hanging case costs a whole time limit
+        HANG["limit"] = 20
     while len(case) >= 2 and rounds < max_rounds:
         rounds += 1
         chunk = max(1, len(case) // n)
@@ -782,6 +792,7 @@ def shrink(ctx, comp, exe, fail, max_rounds=200):
             if chunk == 1:
                 break
             n = min(len(case), n * 2)
+    HANG.pop("limit", None)
     return best
 
 
